@@ -26,18 +26,18 @@ SIMS = ['sim', 'fast', 'compiled']
 
 
 def bounds(tier):
-    return {'designs': 'EXPR/SEQ %d' % (20 if tier == 'quick' else 100), 'K': 3, 'simulators': SIMS,
+    return {'designs': 'EXPR/SEQ %d' % (20 if tier == 'quick' else 300), 'K': 3, 'simulators': SIMS,
             'illegal input range': '[-2^(w+2), 2^(w+2)) for w in {1, 4, 8, 64, 70}'}
 
 
 def cases(tier, seed):
     out = []
-    ds = designs.expr_cases(14 if tier == 'quick' else 80, seed + 21, n=5, maxw=5, nrom=0) + \
+    ds = designs.expr_cases(14 if tier == 'quick' else 280, seed + 21, n=5, maxw=5, nrom=0) + \
         [c for c in designs.seq_cases(widths=(3,)) if c['kind'] in ('chain', 'counter', 'mem_rdw', 'reg_out')]
     for c in ds:
         for s in SIMS:
             out.append(dict(c, k='inspect', sim=s, K=3))
-    for c in ds[:10 if tier == 'quick' else 40]:
+    for c in ds[:10 if tier == 'quick' else 150]:
         for s in SIMS:
             out.append(dict(c, k='step_multiple', sim=s, K=2))
             out.append(dict(c, k='vcd', sim=s, K=2))
@@ -53,7 +53,7 @@ def cases(tier, seed):
             out.append({'k': 'illegal', 'sim': s, 'w': w})
     for s in SIMS:
         out.append({'k': 'step_multiple_resume', 'sim': s})
-    for c in ds[:8 if tier == 'quick' else 40]:
+    for c in ds[:8 if tier == 'quick' else 150]:
         for s in SIMS:
             out.append(dict(c, k='default_tracer', sim=s, K=2))
     return out
